@@ -6,7 +6,7 @@ from typing import Callable, Dict, Optional, Set
 
 from .flow import ANY_EXC, CANCEL
 from .model import FuncInfo, Project, call_name
-from .paths import PState, PathAnalysis, calls_in_order, is_benign_call, run_paths
+from .paths import PState, PathAnalysis, calls_in_order, is_benign_call, is_mapping_get, mapping_names, run_paths
 
 _CONTAINED: Dict[str, bool] = {}
 
@@ -21,10 +21,12 @@ def contained(P: Project, f: FuncInfo, depth: int = 0) -> bool:
         return _CONTAINED[key]
     _CONTAINED[key] = True  # co-inductive assumption for (self-)recursive calls: exceptions can only start at non-recursive operations
 
+    maps = mapping_names(f.node)
+
     def pred(node, st: PState, an: PathAnalysis):
         hv = tuple(h.name for h in an.handler_stack if h.name)
         for c in calls_in_order(node):
-            if is_benign_call(c, hv):
+            if is_benign_call(c, hv) or is_mapping_get(c, maps):
                 continue
             if depth < 3:
                 g = P.resolve_call(f, c)
@@ -45,10 +47,12 @@ def fallible_except_contained(P: Project, f: FuncInfo, extra_total: Optional[Cal
     """Fallibility predicate: every call/await may raise, except benign calls,
     calls of contained package functions and whatever `extra_total` accepts."""
 
+    maps = mapping_names(f.node)
+
     def pred(node, st: PState, an: PathAnalysis):
         hv = tuple(h.name for h in an.handler_stack if h.name)
         for c in calls_in_order(node):
-            if is_benign_call(c, hv):
+            if is_benign_call(c, hv) or is_mapping_get(c, maps):
                 continue
             if extra_total is not None and extra_total(c):
                 continue
